@@ -120,11 +120,13 @@ Edit(entry, r) ==
     /\ nedits' = nedits + 1
     /\ UNCHANGED version
 
+\* (a constant-level definition: TLC evaluates it once, not once per state)
+BoundedRequests == {r \in Requests : Named(r) <= MaxNamed}
 Init == /\ version = 0 /\ top = <<>> /\ info = <<>> /\ layers = <<>> /\ nedits = 0 /\ hist = <<>>
         /\ vals = [f \in Fields |-> Absent] /\ lastreq = [f \in Fields |-> "u"]
 Next == \/ \E v \in 1 .. 3, present \in CreateSets, shape \in {"single", "dir"} :
             \E lp \in Perms(IF v = 1 THEN 0 ELSE MaxLayers) : Create(v, present, shape, lp)
-        \/ \E entry \in Entries, r \in Requests : Named(r) <= MaxNamed /\ Edit(entry, r)
+        \/ \E entry \in Entries, r \in BoundedRequests : Edit(entry, r)
 Spec == Init /\ [][Next]_vars
 
 (* ---- properties ---------------------------------------------------------------- *)
